@@ -5,24 +5,31 @@
    markers, as [prog_arburg_gen0]; the two are equal by reflexivity).  The check regenerates the program on every
    run and instantiates the theorems below only when the text is identical.
 
-   PROVED (abstract field with conjugation [Laws]; any data x with any dtype tag, ANY integer order, criteria omitted /
-   None / any string, any [feq], any abstract order-selection rule [stop]):
-     arburg_ir_run   run feq stop prog_arburg_ref [X; order; criteria] =
-                        match Model.Burg.arburg x (Z.to_nat order) mstop with
-                        | Some (a, rho, ref) => ORet [complex array a; rho; complex array ref]
-                        | None               => OErr ValueError
-                        end
-                     where mstop = no_stop when the criteria argument is falsy (omitted, None, the empty string) and
-                     mstop k = stop (Z.of_nat k) when it is a non-empty string (the Criteria object of the code is the
-                     abstract rule [stop] of the interpreter).  This covers: order <= 0 and order > len(X) (ValueError, the two
-                     argument checks), the "rho <= 0 -> ValueError" branch at any stage, the early stop (break: the model of
-                     the previous stage is returned), and the full recursion: comprehension sum, recursive denominator,
-                     in-place symmetric update of a, the descending in-place update of ef / eb, the growing a / ref arrays.
-     arburg_ir_tie   for a reflexive [feq]: tie_arburg feq stop prog_arburg_ref isreal x order crit = true for every x, every
-                     integer order and every crit other than [Some ""] (for the empty string the code runs without a
-                     criterion whereas tie_arburg hands [stop] to the model; the tie's generator never produces it).
+   PROVED (abstract field with conjugation [Laws]; any data x with any dtype tag, ANY integer order, the criteria argument
+   omitted / None / any string, any [feq], any abstract order-selection rule [stop] of the interpreter):
+     arburg_ir_run_arg   run feq stop prog_arburg_ref [X; order; criteria] =
+                            match Model.Burg.arburg x (Z.to_nat order) (crit_rule crit) with
+                            | Some (a, rho, ref) => ORet [complex array a; rho; complex array ref]
+                            | None               => OErr ValueError
+                            end
+                         where crit_rule = no_stop when the criteria argument is falsy (omitted, None, the empty string: the
+                         code tests [if criteria:]) and crit_rule k = stop (Z.of_nat k) when it is a non-empty string (the
+                         Criteria object of the code is the abstract rule [stop] of the interpreter; its first call, whose result the
+                         code discards, only records rho).  This covers: order <= 0 and order > len(X) (ValueError, the two argument
+                         checks; the model takes Z.to_nat order, 0 for a negative order), the "rho <= 0 -> ValueError" branch at any
+                         stage, the early stop (break: the a, rho, ref of the previous stage are returned although den, temp, the
+                         criterion object have already been overwritten), and the full recursion: the comprehension sum, the
+                         recursive denominator, the in-place symmetric update of a, the descending in-place update of ef / eb,
+                         the arrays a / ref growing by resize.
+     arburg_ir_run       the same with the third argument as the tie passes it (omitted or a string)
+     arburg_ir_nocrit    criteria omitted or None: run = the outcome of arburg x order no_stop
+     arburg_ir_crit      criteria a non-empty string: run = the outcome of arburg x order (fun k => stop (Z.of_nat k))
+     arburg_ir_tie       for a reflexive [feq]: tie_arburg feq stop prog_arburg_ref isreal x order crit = true for every x, every
+                         integer order and every crit other than [Some ""] (for the empty string the code runs without a
+                         criterion whereas tie_arburg hands [stop] to the model; the tie's generator never produces it).
    NOT PROVED: nothing within the IR semantics for the arguments the tie passes (array, Python int, None / string).
-   Arguments of other Python types (order a float, criteria a bool ...) are not quantified over. *)
+   Arguments of other Python types (order a float, criteria a bool ...) are not quantified over.
+   x / 0 is the field's total division on both sides (IR semantics and model), as everywhere in the loop-IR tie. *)
 From Coq Require Import String ZArith List Lia Bool.
 Require Import Spectrum.Theory.Ops Spectrum.Theory.Sum Spectrum.Theory.Vec Spectrum.Model.LoopIR Spectrum.Model.Levinson
                Spectrum.Model.Burg Spectrum.Model.LoopIRTie Spectrum.Proofs.LoopIRLevinson.
@@ -530,3 +537,218 @@ Proof.
   exists (VF num), (VF kp), (VF nr), vstat', vj', vs', vkh', vap'. reflexivity.
 Qed.
 End BgLoops.
+
+(* ---------------------------------------------------------------- the main loop, the whole function *)
+Section BgMain.
+Context {F : Type} {OF : Ops F} {L : Laws OF}.
+Variable feq : F -> F -> bool.
+Variable stop : Z -> F -> F -> bool.
+Local Open Scope F_scope.
+Add Field FFbg2 : (fth (O:=OF)).
+Notation value := (@value F).
+Notation store := (@store F).
+Notation exec := (@exec F OF feq stop).
+Notation eval := (@eval F OF feq).
+Notation mstop := (@mstop F stop).
+Ltac ev := cbn [LoopIR.exec LoopIR.eval get set nth bst bind try asZ asArr asF ok err fst snd arith arithZ fop compare cmpF cmpZ eqne truthy eval_list].
+
+Lemma burg_step_length st0 N (st : burg_st) k st' :
+  burg_step st0 N st k = BCont st' ->
+  length (b_a st') = S (length (b_a st)) /\ length (b_ref st') = S (length (b_ref st)) /\ length (b_ef st') = N /\ length (b_eb st') = N.
+Proof.
+  unfold burg_step. destruct (st0 (S k) _ _); [discriminate|]. destruct (le0 _); [discriminate|].
+  intros H. inversion H; subst; clear H. cbn [b_a b_ref b_ef b_eb].
+  unfold stepup. rewrite !app_length, !mk_length. cbn [length]. repeat split; lia.
+Qed.
+Lemma burg_step_stop st0 N (st : burg_st) k st' : burg_step st0 N st k = BStop st' -> st' = st.
+Proof.
+  unfold burg_step. destruct (st0 (S k) _ _); [intros H; inversion H; reflexivity|]. destruct (le0 _); discriminate.
+Qed.
+
+Lemma bg_outer_ok crit vX vo vx (x : list F) vk v14 vnum vkp vnr vstat vj vsave vkh vap :
+  forall m, (m <= length x)%nat ->
+  let S0 := bst vX vo (vcrit crit) vx (VI (Z.of_nat (length x))) (VF (b_rho (burg_init x))) (VF (b_den (burg_init x)))
+                (critv (usecrit crit) (b_rho (burg_init x))) [] [] x x (VF 1) vk v14 vnum vkp vnr vstat vj vsave vkh vap in
+  match burg_iter (mstop (usecrit crit)) x m with
+  | BCont st => exists vk' vnum' vkp' vnr' vstat' vj' vsave' vkh' vap',
+      for_loop (exec bg_body) 13 (range_from 0 1 m) S0
+      = (bst vX vo (vcrit crit) vx (VI (Z.of_nat (length x))) (VF (b_rho st)) (VF (b_den st)) (critv (usecrit crit) (b_rho st))
+             (b_a st) (b_ref st) (b_ef st) (b_eb st) (VF (b_temp st)) vk' v14 vnum' vkp' vnr' vstat' vj' vsave' vkh' vap', CNormal)
+      /\ length (b_a st) = m /\ length (b_ref st) = m /\ length (b_ef st) = length x /\ length (b_eb st) = length x
+  | BStop st => exists s', for_loop (exec bg_body) 13 (range_from 0 1 m) S0 = (s', CBreak)
+                           /\ rets s' = (VArr false (b_a st), VF (b_rho st), VArr false (b_ref st))
+  | BRaise => exists s', for_loop (exec bg_body) 13 (range_from 0 1 m) S0 = (s', CErr ValueError)
+  end.
+Proof.
+  intros m. induction m as [|m IH]; intros Hm S0.
+  - cbn [burg_iter range_from for_loop]. exists vk, vnum, vkp, vnr, vstat, vj, vsave, vkh, vap. repeat split.
+  - rewrite range_from_S, for_loop_app. cbn [burg_iter].
+    specialize (IH ltac:(lia)). cbv zeta in IH. fold S0 in IH.
+    destruct (burg_iter (mstop (usecrit crit)) x m) as [st|st|].
+    + destruct IH as [vk' [vnum' [vkp' [vnr' [vstat' [vj' [vsave' [vkh' [vap' [E [Ha [Hr [Hef Heb]]]]]]]]]]]]]. rewrite E. cbn [for_loop].
+      pose proof (bg_body_ok feq stop crit vX vo vx (length x) st m vk' v14 vnum' vkp' vnr' vstat' vj' vsave' vkh' vap'
+                    ltac:(lia) Ha Hr Hef Heb) as B. cbv zeta in B.
+      destruct (burg_step (mstop (usecrit crit)) (length x) st m) as [st'|st'|] eqn:Es.
+      * destruct B as [vnum2 [vkp2 [vnr2 [vstat2 [vj2 [vsave2 [vkh2 [vap2 E2]]]]]]]]. rewrite E2.
+        destruct (burg_step_length _ _ _ _ _ Es) as [La [Lr [Lf Lb]]].
+        exists (VI (Z.of_nat m)), vnum2, vkp2, vnr2, vstat2, vj2, vsave2, vkh2, vap2.
+        split; [reflexivity|]. repeat split; lia.
+      * destruct B as [s' [E2 R2]]. rewrite E2. exists s'. split; [reflexivity|exact R2].
+      * destruct B as [s' E2]. rewrite E2. exists s'. reflexivity.
+    + destruct IH as [s' [E R]]. rewrite E. exists s'. split; [reflexivity|exact R].
+    + destruct IH as [s' E]. rewrite E. exists s'. reflexivity.
+Qed.
+
+Lemma bg_main_ok t (x : list F) (order : Z) crit :
+  exists s',
+  exec bg_main (VArr t x :: VI order :: vcrit crit :: repeat VUnbound 20) =
+  (s', match arburg x (Z.to_nat order) (mstop (usecrit crit)) with
+       | Some (a, rho, ref) => CRet [VArr false a; VF rho; VArr false ref]
+       | None => CErr ValueError
+       end).
+Proof.
+  cbn [repeat]. unfold bg_main, arburg.
+  (* order <= 0 *)
+  destruct (Z.leb_spec order 0) as [Ho|Ho].
+  { replace (Z.to_nat order) with 0%nat by lia. cbn [Nat.eqb orb].
+    eexists. apply exec_seq_stop; [|discriminate]. ev. replace (order <=? 0)%Z with true by (symmetry; apply Z.leb_le; lia). ev. reflexivity. }
+  erewrite exec_seq; [|ev; replace (order <=? 0)%Z with false by (symmetry; apply Z.leb_gt; lia); ev; reflexivity].
+  remember (Z.to_nat order) as ord eqn:Eord. assert (Eo : order = Z.of_nat ord) by lia. subst order. clear Eord.
+  replace (ord =? 0)%nat with false by (symmetry; apply Nat.eqb_neq; lia). cbn [orb].
+  (* order > len(X) *)
+  destruct (Nat.ltb_spec (length x) ord) as [Hl|Hl].
+  { eexists. apply exec_seq_stop; [|discriminate]. ev.
+    replace (Z.of_nat (length x) <? Z.of_nat ord)%Z with true by (symmetry; apply Z.ltb_lt; lia). ev. reflexivity. }
+  erewrite exec_seq; [|ev; replace (Z.of_nat (length x) <? Z.of_nat ord)%Z with false by (symmetry; apply Z.ltb_ge; lia); ev; reflexivity].
+  (* x, N, rho, den *)
+  erewrite exec_seq; [|ev; reflexivity].
+  erewrite exec_seq; [|ev; reflexivity].
+  erewrite exec_seq; [|ev; rewrite sum_left_sumL, bg_ofZ_of_nat; change (sumL (map nrm2 x) / ofnat (length x)) with (b_rho (burg_init x)); reflexivity].
+  erewrite exec_seq; [|ev; rewrite lit_2, bg_ofZ_of_nat; change (b_rho (burg_init x) * two * ofnat (length x)) with (b_den (burg_init x)); reflexivity].
+  (* the criteria object *)
+  erewrite exec_seq.
+  2:{ instantiate (1 := [VArr t x; VI (Z.of_nat ord); vcrit crit; VArr t x; VI (Z.of_nat (length x)); VF (b_rho (burg_init x)); VF (b_den (burg_init x));
+                          critv (usecrit crit) (b_rho (burg_init x));
+                          VUnbound; VUnbound; VUnbound; VUnbound; VUnbound; VUnbound; VUnbound; VUnbound; VUnbound; VUnbound; VUnbound; VUnbound; VUnbound;
+                          VUnbound; VUnbound]).
+      unfold bg_crit0. destruct crit as [s|]; cbn [vcrit usecrit]; ev; [|reflexivity].
+      destruct (String.eqb s ""); cbn [negb critv]; ev; reflexivity. }
+  (* a, ref, ef, eb, temp *)
+  erewrite exec_seq; [|ev; change (0 <? 0)%Z with false; cbv iota; change (Z.to_nat 0) with 0%nat; cbn [mk seq map]; reflexivity].
+  erewrite exec_seq; [|ev; change (0 <? 0)%Z with false; cbv iota; change (Z.to_nat 0) with 0%nat; cbn [mk seq map]; reflexivity].
+  erewrite exec_seq; [|ev; reflexivity].
+  erewrite exec_seq; [|ev; reflexivity].
+  erewrite exec_seq; [|ev; rewrite lit_1; reflexivity].
+  (* the main loop *)
+  pose proof (bg_outer_ok crit (VArr t x) (VI (Z.of_nat ord)) (VArr t x) x VUnbound VUnbound VUnbound VUnbound VUnbound VUnbound VUnbound VUnbound VUnbound VUnbound
+                ord Hl) as O. cbv zeta in O. unfold bst in O.
+  destruct (burg_iter (mstop (usecrit crit)) x ord) as [st|st|].
+  - destruct O as [vk' [vnum' [vkp' [vnr' [vstat' [vj' [vsave' [vkh' [vap' [E _]]]]]]]]]].
+    erewrite exec_seq; [|unfold bg_loop; ev; rewrite range_vals_nat; cbn [try]; rewrite E; reflexivity].
+    eexists. ev. reflexivity.
+  - destruct O as [s' [E R]]. unfold rets in R. injection R as R8 R5 R9.
+    erewrite exec_seq; [|unfold bg_loop; ev; rewrite range_vals_nat; cbn [try]; rewrite E; reflexivity].
+    exists s'. cbn [LoopIR.exec eval_list LoopIR.eval]. unfold get. rewrite R8, R5, R9. reflexivity.
+  - destruct O as [s' E]. exists s'. apply exec_seq_stop; [|discriminate].
+    unfold bg_loop. ev. rewrite range_vals_nat. cbn [try]. rewrite E. reflexivity.
+Qed.
+
+(* the order-selection rule the model is run with: none when the criteria argument is falsy ([if criteria:] - omitted, None,
+   the empty string), the interpreter's abstract rule [stop] otherwise *)
+Definition crit_rule (crit : option string) : nat -> F -> F -> bool :=
+  match crit with
+  | Some s => if String.eqb s "" then no_stop else (fun k a b => stop (Z.of_nat k) a b)
+  | None => no_stop
+  end.
+Lemma mstop_rule crit : mstop (usecrit crit) = crit_rule crit.
+Proof. destruct crit as [s|]; [|reflexivity]. cbn [usecrit crit_rule]. destruct (String.eqb s ""); reflexivity. Qed.
+
+(* the third argument: omitted (the default None applies), an explicit None, or a string *)
+Inductive crit_arg : option value -> option string -> Prop :=
+| crit_omitted : crit_arg None None
+| crit_none : crit_arg (Some VNone) None
+| crit_str s : crit_arg (Some (VStr s)) (Some s).
+
+Theorem arburg_ir_run_arg (t : bool) (x : list F) (order : Z) (c3 : option value) (crit : option string) :
+  crit_arg c3 crit ->
+  run feq stop prog_arburg_ref [Some (VArr t x); Some (VI order); c3] =
+  match arburg x (Z.to_nat order) (crit_rule crit) with
+  | Some (a, rho, ref) => ORet [VArr false a; VF rho; VArr false ref]
+  | None => OErr ValueError
+  end.
+Proof.
+  intros Hc. destruct (bg_main_ok t x order crit) as [s' E].
+  unfold run, prog_arburg_ref. cbn [p_defaults p_body p_nslots p_nparams Nat.sub].
+  assert (B : bind_args feq [None; None; Some ENone] [Some (VArr t x); Some (VI order); c3]
+              = inl [VArr t x; VI order; vcrit crit]) by (destruct Hc; reflexivity).
+  rewrite B. cbn [app]. rewrite E. rewrite mstop_rule.
+  destruct (arburg x (Z.to_nat order) (crit_rule crit)) as [[[a rho] ref]|]; reflexivity.
+Qed.
+
+(* as the tie passes the arguments: criteria omitted or a string *)
+Theorem arburg_ir_run (t : bool) (x : list F) (order : Z) (crit : option string) :
+  run feq stop prog_arburg_ref [Some (VArr t x); Some (VI order); option_map VStr crit] =
+  match arburg x (Z.to_nat order) (crit_rule crit) with
+  | Some (a, rho, ref) => ORet [VArr false a; VF rho; VArr false ref]
+  | None => OErr ValueError
+  end.
+Proof. apply arburg_ir_run_arg. destruct crit; constructor. Qed.
+
+(* criteria=None (omitted or given): Model.Burg.arburg without order selection *)
+Theorem arburg_ir_nocrit (t : bool) (x : list F) (order : Z) (c3 : option value) :
+  c3 = None \/ c3 = Some VNone ->
+  run feq stop prog_arburg_ref [Some (VArr t x); Some (VI order); c3] =
+  match arburg x (Z.to_nat order) no_stop with
+  | Some (a, rho, ref) => ORet [VArr false a; VF rho; VArr false ref]
+  | None => OErr ValueError
+  end.
+Proof. intros [-> | ->]; apply (arburg_ir_run_arg t x order _ None); constructor. Qed.
+
+(* a Criteria object (any non-empty name): the abstract rule of the interpreter is the [stop] argument of the model *)
+Theorem arburg_ir_crit (t : bool) (x : list F) (order : Z) (s : string) :
+  s <> ""%string ->
+  run feq stop prog_arburg_ref [Some (VArr t x); Some (VI order); Some (VStr s)] =
+  match arburg x (Z.to_nat order) (fun k a b => stop (Z.of_nat k) a b) with
+  | Some (a, rho, ref) => ORet [VArr false a; VF rho; VArr false ref]
+  | None => OErr ValueError
+  end.
+Proof.
+  intros Hs. rewrite (arburg_ir_run_arg t x order _ (Some s)) by constructor.
+  cbn [crit_rule]. destruct (String.eqb_spec s ""); [congruence|reflexivity].
+Qed.
+End BgMain.
+
+(* the boolean of the exact evaluation tie (Model/LoopIRTie.v) is true on its whole domain: any data, any integer order, criteria
+   omitted or any NON-EMPTY string (for the empty string the code runs without a criterion, [if criteria:], whereas tie_arburg gives
+   the model the rule [stop]; the generator of the tie never produces it) *)
+Section BgTie.
+Context {F : Type} {OF : Ops F} {L : Laws OF}.
+Variable feq : F -> F -> bool.
+Hypothesis feq_refl : forall a, feq a a = true.
+Variable stop : Z -> F -> F -> bool.
+Local Open Scope F_scope.
+
+Lemma bg_leq_refl (l : list F) : leq feq l l = true.
+Proof.
+  unfold leq. rewrite Nat.eqb_refl. cbn [andb]. induction l as [|a l IH]; [reflexivity|].
+  cbn [combine forallb fst snd]. rewrite feq_refl, IH. reflexivity.
+Qed.
+
+Theorem arburg_ir_tie (isreal : bool) (x : list F) (order : Z) (crit : option string) :
+  crit <> Some ""%string ->
+  tie_arburg feq stop prog_arburg_ref isreal x order crit = true.
+Proof.
+  intros Hc. unfold tie_arburg. rewrite (arburg_ir_run feq stop isreal x order crit).
+  assert (E : crit_rule stop crit = match crit with None => no_stop | Some _ => fun k a b => stop (Z.of_nat k) a b end).
+  { destruct crit as [s|]; [|reflexivity]. cbn [crit_rule]. destruct (String.eqb_spec s ""); [subst; congruence|reflexivity]. }
+  rewrite E.
+  destruct (arburg x (Z.to_nat order) _) as [[[a rho] ref]|]; [|reflexivity].
+  rewrite !bg_leq_refl, feq_refl. reflexivity.
+Qed.
+End BgTie.
+
+Print Assumptions arburg_ir_run_arg.
+Print Assumptions arburg_ir_run.
+Print Assumptions arburg_ir_nocrit.
+Print Assumptions arburg_ir_crit.
+Print Assumptions arburg_ir_tie.
